@@ -10,7 +10,8 @@ import common as C
 
 # tag -> owning property (core:* are resolved by context, see owner_of)
 TAG_OWNER = {
-    "route": "C01", "alloc": "C05", "time": "C12", "book:more": "C13", "stream": "C10", "close": "C04",
+    "route": "C01", "alloc": "C05", "time": "C12", "quiet:more": "C13", "wire:abandon": "C13", "wire": "C02",
+    "effect:abandon": ("C13", "C01"), "effect:scrub": ("C12", "C13"), "stream": "C10", "close": "C04",
     "inv:NoLeak": "C13", "inv:UniqueIds": "C05", "inv:WireUnique": "C05", "inv:IdRange": "C05", "inv:Protected": "C05",
     "inv:TimeoutExact": "C12", "inv:FailFast": "C04", "inv:StreamOK": "C10",
 }
@@ -44,8 +45,12 @@ def read_diags(out):
 def owner_of(tag, events, idx):
     """Owner of a diagnosis at 1-based event index idx (None = nobody: a difference no property forbids)."""
     if tag in TAG_OWNER:
-        return TAG_OWNER[tag]
-    if tag in ("xscrub", "book:less"):
+        return TAG_OWNER[tag]          # a property id or a tuple of them
+    # bookkeeping between quiescent points is bound by constraint only: a routing entry or ID reservation that outlives
+    # the reference's but is gone at quiescence is not a leak (an implementation may release in finish() rather than on
+    # SearchResultDone); what must not happen is caught by the invariants (NoLeak at every quiescent state, Protected,
+    # UniqueIds) and by the accessor snapshot at the end of every scenario (quiet:more)
+    if tag in ("xscrub", "book:less", "book:more", "quiet:less"):
         return None
     if tag.startswith("core:"):
         ev = events[idx - 1]
@@ -75,6 +80,10 @@ def owner_of(tag, events, idx):
             return "C12"
         return "C01"
     return "C01"
+
+
+def _own_str(o):
+    return "no property" if o is None else ("/".join(o) if isinstance(o, tuple) else o)
 
 
 def scenario_of(events, idx):
@@ -132,7 +141,8 @@ def run_lane(pid, tier, mc, profiles, rule, selftests, assumptions=(), extra=Non
         owned, foreign = {}, {}
         for idx, tag in diags:
             own = owner_of(tag, events, idx)
-            (owned if own == pid else foreign).setdefault(tag, []).append(idx)
+            mine = own == pid or (isinstance(own, tuple) and pid in own)
+            (owned if mine else foreign).setdefault(tag, []).append(idx)
         chk.extra.setdefault("trace_validation", []).append(
             dict(profile=prof, scenarios=nscen, events=n, diag_owned={k: len(v) for k, v in owned.items()},
                  diag_foreign={k: len(v) for k, v in foreign.items()}, wall_s=round(res["wall"], 1)))
@@ -146,7 +156,7 @@ def run_lane(pid, tier, mc, profiles, rule, selftests, assumptions=(), extra=Non
         for tag, idxs in sorted(foreign.items()):
             sd, k, _ = scenario_of(events, idxs[0])
             chk.notes.append("difference owned by %s (not this property): %s x%d, first at profile=%s seed=%s event=%d"
-                             % (owner_of(tag, events, idxs[0]) or "no property", tag, len(idxs), prof, sd, k))
+                             % (_own_str(owner_of(tag, events, idxs[0])), tag, len(idxs), prof, sd, k))
     chk.extra["events_validated"] = total_events
     chk.rule.append(rule)
     # binding self-tests on the first trace
@@ -213,11 +223,20 @@ def corrupt_alloc(events):
 
 
 def corrupt_snapshot(events):
+    """An ID that is released in reality stays reserved in every later snapshot of its scenario (a simulated leak)."""
+    leak = None
     for e in events:
-        if e.get("ev") == "DrvRecv" and e.get("k") == "result":
-            e["s"]["used"] = sorted(set(e["s"]["used"]) | {e["id"]})
-            return events
-    return None
+        if e.get("ev") == "Reset":
+            if leak is not None:
+                return events
+        if leak is None and e.get("ev") == "DrvRecv" and e.get("k") == "result":
+            leak = e["id"]
+        if leak is not None:
+            if "s" in e:
+                e["s"]["used"] = sorted(set(e["s"]["used"]) | {leak})
+            if e.get("ev") == "Quiet":
+                e["used"] = sorted(set(e["used"]) | {leak})
+    return events if leak is not None else None
 
 
 def corrupt_time(events):
